@@ -3,13 +3,14 @@ CONSTANTS
   InsSeq <- Ins3
   Flushers = {"f"}
   Closer = "c"
-  Tables = {"t1"}
+  Tables = {"t1", "t2"}
   LocSeq <- Loc2
   FreeLocs = FALSE
   BatchSizes = {1, 2, 3}
   PerIns = 1
   PerFl = 1
-  LockScope = "code"
+  LockScope = "fix"
+  SigMode = "label"
 VIEW View
-INVARIANTS TypeOK OnlyRacesHurt NeverTwice LocInternOK TxnOwner EmitCase
-PROPERTY Terminates
+INVARIANTS TypeOK AllPersistedOnce NoCrash FlushHoldsLock NeverTwice LocInternOK TxnOwner EmitCase
+PROPERTIES Terminates Refines
